@@ -19,7 +19,7 @@ LEVEL = "exploration"
 RULE = ("every built-in data command x 1..5 inputs x rank 1-3 shapes x int/float dtypes x mask styles (nomask, all-false, random, "
         "single cell, all-but-one, all) x 3 payloads under the mask; CSV cases vary the number stored in missing cells; distinct by "
         "(command, n, rank, dtypes, mask classes, params)")
-REQUIRED_COUNTERS = ["cancelling_weight_cases", "csv_written_file_checks", "netcdf_joint_write_then_reuse_checks", "netcdf_marker_variation_checks", "mask_superset_checks", "mask_exact_checks", "payload_variation_checks", "masked_input_cells", "csv_payload_checks", "follow_up_mask_checks", "netcdf_fill_mask_checks", "large_rasters_checked", "csv_rereads_with_other_marker", "large_files_read", "later_same_family_checks", "printed_fields_compared", "netcdf_write_read_back_checks"]
+REQUIRED_COUNTERS = ["serialised_reads_rerun", "cancelling_weight_cases", "csv_written_file_checks", "netcdf_joint_write_then_reuse_checks", "netcdf_marker_variation_checks", "mask_superset_checks", "mask_exact_checks", "payload_variation_checks", "masked_input_cells", "csv_payload_checks", "follow_up_mask_checks", "netcdf_fill_mask_checks", "large_rasters_checked", "csv_rereads_with_other_marker", "large_files_read", "later_same_family_checks", "printed_fields_compared", "netcdf_write_read_back_checks"]
 ASSUMPTIONS = ["what is stored under result masks and fill values are not judged", "NaN/inf and zero-length arrays are never generated",
                "cases where the reference is undefined (constant arrays, equal thresholds, zero weight sums) only get check (a) and (c)"]
 
@@ -127,7 +127,12 @@ def gen_csv_case(rng):
             col[rng.choice(free)] = 999999 if integer else 1e20
     case = {"kind": "csv", "col": col, "mask": mask, "integer": integer, "chain": chain,
             "other": [arr.lattice_value(rng, integer=integer) for _ in range(nrows)]}
-    if rng.random() < 0.25:
+    if not integer and rng.random() < 0.15:
+        # markers with more significant digits than a short number format keeps, and a fractional marker handed over as a
+        # single-precision NumPy number through the programming interface
+        case["markers"] = rng.choice([[-3.4028234663852886e+38, 77777], [1.2345678901234567e+30, -9999], [-999.5, 77777.25]])
+        case["np_marker"] = case["markers"][0] == -999.5
+    elif rng.random() < 0.25:
         # the file marks missing cells with 0 (declared through MissingVal = 0): no valid cell may then hold 0
         case["col"] = [v if v != 0 else (3 if integer else 3.5) for v in col]
         case["markers"] = [0, 77777] if integer or rng.random() < 0.5 else [0.0, -9999]
@@ -475,7 +480,7 @@ def run_case(ctx, case):
 
 def _spell(marker, k, integer):
     """The marker as other tools write the same number into a table of decimals (-9999.0, -9999.00, -9.999e3, ...)."""
-    if integer or float(marker) != int(marker):
+    if integer or abs(float(marker)) >= 1e15 or float(marker) != int(marker):
         return repr(marker)
     m = int(marker)
     forms = [repr(marker), "%d.0" % m, "%d.00" % m, " %d" % m, "%.10e" % m if m else "0e0", "%d." % m, "+%d" % m if m > 0 else "%d.000" % m]
@@ -521,7 +526,21 @@ def run_csv(ctx, case):
                 f.write("%s,%s\n" % (_spell(marker, len(repr(v)) + len(repr(o)), case["integer"]) if m else repr(v), repr(o)))
         prog = arr.new_program(working_dir=d)
         args = {"InFileName": path, "InFieldName": "X", "MissingVal": marker, "DataType": "Integer" if case["integer"] else "Float"}
+        if case.get("np_marker") and float(numpy.float32(marker)) == float(marker):
+            args["MissingVal"] = numpy.float32(marker)
         out = arr.invoke(prog, "EEMSRead", "X", args)
+        if out.ok and not case.get("np_marker") and marker == (case.get("markers") or (-9999, 77777))[0]:
+            # the program written out and loaded again reads the same cells as missing (the marker survives the round trip)
+            from mpilot.program import Program as _P
+            ctx.count("serialised_reads_rerun")
+            try:
+                p2 = _P.from_source(prog.to_string(), working_dir=d)
+                xm2 = numpy.ma.getmaskarray(p2.commands["X"].result).tolist()
+            except Exception as e:
+                xm2 = "raises " + type(e).__name__
+            if xm2 != case["mask"]:
+                ctx.fail("csv:read-mask-wrong:after-the-program-was-written-out-and-loaded-again", {"got": xm2, "want": case["mask"], "marker": marker})
+                return
         prev, prev_f = "X", False
         for j, cmd in enumerate(case["chain"]):
             if not out.ok:
